@@ -439,6 +439,10 @@ class _PartialEvalInstance(DefaultVisitor):
     def _visit_while(self, stmt: WhileStmt, ctx: Context | None):
         self._visit_expr(stmt.cond, ctx)
         self._loop_fixpoint(stmt, lambda: self._visit_block(stmt.body, ctx))
+        # the condition reads the header phis: what the first visit recorded
+        # for it predates the fixpoint (and, in a nested loop, stems from the
+        # previous round of the enclosing loop)
+        self._visit_expr(stmt.cond, ctx)
 
     def _visit_for(self, stmt: ForStmt, ctx: Context | None):
         self._visit_expr(stmt.iterable, ctx)
